@@ -1,22 +1,252 @@
+// sim: worker process of the deterministic simulator.
+//   sim --prop <id> --seed S --runs N [--worker i --nworkers W] [--tier quick|thorough] [--seconds T]
+//       [--shapes file] [--replay-dir dir] [--selfcheck K]      batch of seeded runs
+//   sim --replay file [--verbose]                                re-execute one replay file
+//   sim --print-plan --prop <id> --seed S --index i              show a generated plan
+#include <chrono>
 #include <cstdio>
-#include "world/world.h"
-#include "world/matgen.h"
+#include <cstdlib>
+#include <cstring>
+#include <fstream>
+#include <set>
+#include <sstream>
+#include "engine/gen.h"
+#include "engine/run.h"
+#include "engine/shrink.h"
+
 using namespace sim;
-int main()
+
+
+static std::string arg(int argc, char** argv, const char* name, const char* dflt)
 {
-    WorldSpec w;
-    w.family = F_SYM; w.n = 30; w.nev = 3; w.ncv = 10;
-    auto world = make_world(w);
-    TaskCtx ctx;
-    ctx.seam[0] = &world->ctlA;
-    current_ctx() = &ctx;
-    auto s = world->make_solver();
-    s->init0();
-    long r = s->compute(R_LA, 100, 1e-10L, R_LA);
-    Snapshot sn;
-    s->values(sn);
-    s->vectors(sn, -1);
-    std::printf("ret=%ld nops=%ld events=%ld applyA=%ld restarts=%ld lam0=%Lg hash=%llx\n", r, s->nops(), ctx.nevents, ctx.n_apply[0], ctx.n_checkpoint[CK_RESTART], sn.vals[0].real(), (unsigned long long) ctx.log.h);
-    current_ctx() = nullptr;
-    return 0;
+    for (int i = 1; i + 1 < argc; i++)
+        if (!std::strcmp(argv[i], name)) return argv[i + 1];
+    return dflt;
+}
+static bool flag(int argc, char** argv, const char* name)
+{
+    for (int i = 1; i < argc; i++)
+        if (!std::strcmp(argv[i], name)) return true;
+    return false;
+}
+
+static Json viol_json(const Violation& v)
+{
+    Json j = Json::object();
+    j.set("prop", v.prop).set("clause", v.clause).set("op_index", v.op_index).set("pair", v.pair).set("ratio", (double) v.ratio).set("detail", v.detail);
+    return j;
+}
+
+// structural features of a (minimised) plan: what known-finding signatures are matched against
+static Json features(const Plan& p, const RunOutput& out, const std::string& cls)
+{
+    Json f = Json::object();
+    f.set("class", cls);
+    const TaskSpec& t = p.tasks.at(0);
+    f.set("family", family_name(t.w.family)).set("scalar", scalar_name(t.w.scalar)).set("mclass", mclass_name(t.w.mclass));
+    f.set("scale_log10", std::log10(t.w.scale)).set("n", t.w.n).set("nev", t.w.nev).set("ncv", t.w.ncv);
+    std::string pat;
+    int failing_op = -1;
+    for (auto& v : out.viol)
+        if (v.cls() == cls)
+        {
+            failing_op = v.op_index;
+            f.set("min_beta_rel", v.min_beta_rel).set("expands", v.expands).set("ratio", (double) v.ratio);
+            break;
+        }
+    for (size_t i = 0; i < t.script.size(); i++)
+    {
+        if (i) pat += ",";
+        pat += opkind_name(t.script[i].kind);
+        if (t.script[i].kind == OP_INITV) pat += "[" + std::to_string(t.script[i].vclass) + "]";
+        if (!t.script[i].faults.empty()) pat += "!";
+    }
+    // start vector class in force at the failing op
+    int vcls = -1;
+    for (int i = 0; i <= failing_op && i < (int) t.script.size(); i++)
+    {
+        if (t.script[(size_t) i].kind == OP_INIT0) vcls = -1;
+        if (t.script[(size_t) i].kind == OP_INITV) vcls = t.script[(size_t) i].vclass;
+    }
+    f.set("start_vector_class", vcls);
+    f.set("pattern", pat).set("failing_op", failing_op).set("tasks", (long) p.tasks.size());
+    if (failing_op >= 0 && failing_op < (int) t.script.size())
+    {
+        const Op& o = t.script[(size_t) failing_op];
+        f.set("failing_maxit", o.maxit).set("failing_tol", o.tol).set("failing_sel", rule_name(o.sel)).set("failing_sort", rule_name(o.sort));
+    }
+    return f;
+}
+
+static std::string write_replay(const std::string& dir, const Plan& p, const RunOutput& out, const std::string& cls, const std::string& tag)
+{
+    Json j = p.to_json();
+    Json e = Json::object();
+    e.set("class", cls).set("event_hash", (unsigned long long) out.event_hash);
+    j.set("expect", e);
+    Json vs = Json::array();
+    for (auto& v : out.viol) vs.push(viol_json(v));
+    j.set("violations", vs);
+    j.set("features", features(p, out, cls));
+    std::string path = dir + "/" + p.prop + "-" + tag + ".json";
+    std::ofstream f(path);
+    f << j.dump() << "\n";
+    return path;
+}
+
+static int do_replay(const std::string& path, bool verbose, bool observe)
+{
+    std::ifstream f(path);
+    if (!f) { std::fprintf(stderr, "cannot open %s\n", path.c_str()); return 2; }
+    std::stringstream ss;
+    ss << f.rdbuf();
+    Json j = Json::parse(ss.str());
+    Plan p = Plan::from_json(j);
+    RunOpts o;
+    o.verbose = verbose;
+    o.observe_krylov = observe;
+    RunOutput out = run_plan(p, o);
+    if (!out.engine_error.empty()) { std::printf("ENGINE-ERROR %s\n", out.engine_error.c_str()); return 2; }
+    std::string want = j.has("expect") ? j.at("expect").gets("class", "") : "";
+    for (auto& v : out.viol) std::printf("violation class=%s op=%d pair=%ld ratio=%.3g :: %s\n", v.cls().c_str(), v.op_index, v.pair, (double) v.ratio, v.detail.c_str());
+    std::printf("event_hash=%llu violations=%zu\n", (unsigned long long) out.event_hash, out.viol.size());
+    if (verbose) std::printf("stats=%s\n", out.stats.to_json().dump().c_str());
+    if (!want.empty())
+    {
+        const bool rep = out.has_class(want);
+        const bool same_hash = !j.at("expect").has("event_hash") || j.at("expect").at("event_hash").as_u64() == out.event_hash;
+        std::printf("%s class=%s hash_match=%d\n", rep ? "REPRODUCED" : "NOT-REPRODUCED", want.c_str(), (int) same_hash);
+        return rep ? 1 : 3;
+    }
+    return out.viol.empty() ? 0 : 1;
+}
+
+int main(int argc, char** argv)
+{
+    std::setvbuf(stdout, nullptr, _IOLBF, 1 << 16);
+    if (flag(argc, argv, "--replay") || !arg(argc, argv, "--replay", "").empty())
+        return do_replay(arg(argc, argv, "--replay", ""), flag(argc, argv, "--verbose"), flag(argc, argv, "--observe-krylov"));
+    const std::string prop = arg(argc, argv, "--prop", "C01");
+    const uint64_t seed = std::strtoull(arg(argc, argv, "--seed", "1").c_str(), nullptr, 10);
+    const long runs = std::atol(arg(argc, argv, "--runs", "100").c_str());
+    const long worker = std::atol(arg(argc, argv, "--worker", "0").c_str());
+    const long nworkers = std::atol(arg(argc, argv, "--nworkers", "1").c_str());
+    const double seconds = std::atof(arg(argc, argv, "--seconds", "0").c_str());
+    const long selfcheck = std::atol(arg(argc, argv, "--selfcheck", "0").c_str());  // every K-th run is executed twice
+    const std::string shapes_path = arg(argc, argv, "--shapes", "");
+    const std::string replay_dir = arg(argc, argv, "--replay-dir", "replays");
+    const std::string hashes_path = arg(argc, argv, "--hashes", "");  // determinism proof: run index + event hash
+    GenOpts go;
+    go.thorough = arg(argc, argv, "--tier", "quick") == "thorough";
+    go.force_family = std::atoi(arg(argc, argv, "--family", "-1").c_str());
+    go.no_faults = flag(argc, argv, "--no-faults");
+    go.single_shot = flag(argc, argv, "--single-shot");
+    if (flag(argc, argv, "--calibrate")) set_calibrating(true);
+    const bool no_shrink = flag(argc, argv, "--no-shrink");
+    RunOpts ro;
+    ro.observe_krylov = flag(argc, argv, "--observe-krylov");
+
+    if (flag(argc, argv, "--print-plan"))
+    {
+        const long idx = std::atol(arg(argc, argv, "--index", "0").c_str());
+        Plan p = gen_plan_for(prop, run_seed_of(seed, (uint64_t) idx), go);
+        std::printf("%s\n", p.to_json().dump().c_str());
+        return 0;
+    }
+
+    const auto t0 = std::chrono::steady_clock::now();
+    RunStats total;
+    std::set<uint64_t> shapes;
+    std::ofstream hashes;
+    if (!hashes_path.empty()) hashes.open(hashes_path);
+    long executed = 0, nviol = 0, nontrivial = 0, engine_errors = 0, evaluations = 0;
+    Json samples = Json::array();
+    for (long idx = worker; idx < runs; idx += nworkers)
+    {
+        if (seconds > 0 && std::chrono::duration<double>(std::chrono::steady_clock::now() - t0).count() > seconds) break;
+        const uint64_t rs = run_seed_of(seed, (uint64_t) idx);
+        go.index = idx;
+        Plan p = gen_plan_for(prop, rs, go);
+        RunOutput out = run_plan(p, ro);
+        executed++;
+        evaluations += out.evaluations;
+        if (!out.engine_error.empty())
+        {
+            engine_errors++;
+            std::printf("{\"type\":\"engine_error\",\"index\":%ld,\"msg\":\"%s\"}\n", idx, out.engine_error.c_str());
+            continue;
+        }
+        total.merge(out.stats);
+        if (out.nontrivial)
+        {
+            nontrivial++;
+            if (out.shapes.empty()) shapes.insert(out.shape_hash);
+            for (uint64_t h : out.shapes) shapes.insert(h);
+        }
+        if (hashes.is_open()) hashes << idx << " " << out.event_hash << "\n";
+        if (samples.a.size() < 3 && out.nontrivial && idx % 7 == worker % 7) samples.push(p.to_json());
+        if (selfcheck > 0 && (idx / nworkers) % selfcheck == 0)
+        {
+            RunOutput again = run_plan(p, ro);
+            if (again.event_hash != out.event_hash || again.viol.size() != out.viol.size())
+            {
+                engine_errors++;
+                std::printf("{\"type\":\"engine_error\",\"index\":%ld,\"msg\":\"nondeterministic re-execution (hash %llu vs %llu)\"}\n", idx,
+                            (unsigned long long) out.event_hash, (unsigned long long) again.event_hash);
+                continue;
+            }
+            total.add("selfcheck.reexecuted");
+        }
+        if (!out.viol.empty())
+        {
+            // one report per violation class of this run
+            std::set<std::string> classes;
+            for (auto& v : out.viol) classes.insert(v.cls());
+            for (auto& cls : classes)
+            {
+                // gate (i): the same seed re-executed in this process gives the same hash and class
+                RunOutput again = run_plan(p, ro);
+                if (again.event_hash != out.event_hash || !again.has_class(cls))
+                {
+                    engine_errors++;
+                    std::printf("{\"type\":\"engine_error\",\"index\":%ld,\"msg\":\"violation %s did not reproduce in-process\"}\n", idx, cls.c_str());
+                    continue;
+                }
+                int used = 0;
+                Plan failing = p;
+                for (auto& v : out.viol)
+                    if (v.cls() == cls && v.params.type == Json::Obj && !v.params.o.empty())
+                    {
+                        for (auto& kv : v.params.o) failing.params.set(kv.first, kv.second);
+                        break;
+                    }
+                Plan small = no_shrink ? failing : shrink_plan(failing, cls, ro, 300, &used);
+                RunOutput sout = run_plan(small, ro);
+                if (!sout.has_class(cls)) { small = failing; sout = run_plan(failing, ro); }
+                if (!sout.has_class(cls)) { small = p; sout = out; }
+                char tag[64];
+                std::snprintf(tag, sizeof tag, "%llu-%ld-%zx", (unsigned long long) seed, idx, std::hash<std::string>()(cls) & 0xffff);
+                std::string path = write_replay(replay_dir, small, sout, cls, tag);
+                nviol++;
+                Json line = Json::object();
+                line.set("type", "violation").set("prop", cls.substr(0, cls.find(':'))).set("class", cls).set("index", idx).set("run_seed", (unsigned long long) rs);
+                line.set("replay", path).set("shrink_runs", used).set("features", features(small, sout, cls));
+                for (auto& v : sout.viol)
+                    if (v.cls() == cls) { line.set("detail", v.detail); break; }
+                std::printf("%s\n", line.dump().c_str());
+            }
+        }
+    }
+    if (!shapes_path.empty())
+    {
+        std::ofstream sf(shapes_path, std::ios::binary);
+        for (uint64_t h : shapes) sf.write((const char*) &h, 8);
+    }
+    Json sum = Json::object();
+    sum.set("type", "summary").set("prop", prop).set("worker", worker).set("executed", executed).set("evaluations", evaluations).set("nontrivial", nontrivial);
+    sum.set("distinct_shapes", (long) shapes.size()).set("violations", nviol).set("engine_errors", engine_errors);
+    sum.set("wall_s", std::chrono::duration<double>(std::chrono::steady_clock::now() - t0).count());
+    sum.set("stats", total.to_json()).set("samples", samples);
+    std::printf("%s\n", sum.dump().c_str());
+    return engine_errors ? 2 : (nviol ? 1 : 0);
 }
